@@ -54,6 +54,7 @@ def make_family():
     m["small1"] = {}
     m["small2"] = {"excludes": "small1"}
     m["shy"] = {"inclusive": False, "group": "g1"}
+    m["shy2"] = {"inclusive": False}             # a second non-inclusive mark, adjacent in rank to `shy`
     m["solo"] = {"excludes": "_"}
     m["left"] = {"excludes": "left right"}       # mutual exclusion between two distinct types
     m["right"] = {"excludes": "left right", "attrs": {"n": {"default": 0}}}
